@@ -202,7 +202,11 @@ impl CriteriaSet {
             count <= MAX_CRITERIA,
             "{MAX_CRITERIA} was not Enough For Everyone ({count} criteria)"
         );
-        CriteriaSet((1u64 << count).wrapping_sub(1))
+        if count == MAX_CRITERIA {
+            CriteriaSet(u64::MAX)
+        } else {
+            CriteriaSet((1u64 << count).wrapping_sub(1))
+        }
     }
     pub fn set_criteria(&mut self, idx: usize) {
         self.0 |= 1 << idx;
